@@ -3,7 +3,10 @@ package seams
 import (
 	"context"
 	"database/sql"
+	"strings"
 	"sync"
+
+	"github.com/XSAM/otelsql"
 
 	"github.com/jdillenkofer/pithos/internal/storage/database"
 	"github.com/jdillenkofer/pithos/verifharness/sim"
@@ -144,3 +147,21 @@ func (d *DB) GetDatabaseType() database.DatabaseType {
 
 // UnwrapDatabase lets pithos' own "same database?" checks see through the seam.
 func (d *DB) UnwrapDatabase() database.Database { return d.Inner }
+
+// InstallStatementFaults routes the statement hook of the substituted otelsql
+// driver wrapper to f: the k-th SQL statement of the armed, scoped operation
+// fails before it reaches SQLite. Inject-only (the hook runs inside database/sql
+// with its connection mutex held; it never yields).
+func InstallStatementFaults(get func() *Faults) {
+	otelsql.VerifStatementHook = func(ctx context.Context, kind string, query string) error {
+		f := get()
+		if f == nil {
+			return nil
+		}
+		q := strings.ToUpper(strings.TrimSpace(query))
+		if strings.HasPrefix(q, "PRAGMA") || strings.HasPrefix(q, "BEGIN") || strings.HasPrefix(q, "COMMIT") || strings.HasPrefix(q, "ROLLBACK") {
+			return nil
+		}
+		return f.Check("sql.stmt:" + kind)
+	}
+}
